@@ -54,13 +54,7 @@ def spherematch(ra1, dec1, ra2, dec2, matchlength, chunksize=None, maxmatch=1):
     omatch2 = np.array(match2)
     odistance12 = np.array(distance12)
     s = odistance12.argsort()
-    if maxmatch == 1:
-        keep = np.sort(np.unique(omatch1[s], return_index=True)[1])
-        keep = keep[np.sort(np.unique(omatch2[s][keep], return_index=True)[1])]
-        match1 = omatch1[s][keep].astype('i4')
-        match2 = omatch2[s][keep].astype('i4')
-        distance12 = odistance12[s][keep].astype('d')
-    elif maxmatch > 0:
+    if maxmatch > 0:
         gotten1 = np.zeros(ra1.size, dtype='i4')
         gotten2 = np.zeros(ra2.size, dtype='i4')
         nmatch = 0
